@@ -172,8 +172,9 @@ type Machine struct {
 	CPU CPUI
 	Mem *SimMem // the single device behind the whole address space
 	// second device for partially attached configurations (cpualt open bus experiments)
-	busA *bus.Bus
-	altB *cpualt.CPU
+	busA    *bus.Bus
+	altB    *cpualt.CPU
+	altPool *pooledAlt
 }
 
 // memProxy lets a pooled bus keep its attachment while the backing SimMem changes per run.
@@ -216,6 +217,7 @@ type pooledAlt struct {
 	cpu      *cpualt.CPU
 	proxy    *memProxy
 	attached bool
+	split    bool // a second device was attached by SplitAlt: re-attach everything next time
 	lo, hi   uint32
 	// holeLo/holeHi: range left as open bus in the current configuration
 }
@@ -240,9 +242,10 @@ func NewAltMachine(env *sim.Env, idx int, mem *SimMem, holeLo, holeHi uint32) *M
 	c.StepInfo = cpualt.StepInfo{}
 	c.OnWDM, c.OnPC = nil, nil
 	c.Bus.M = 0
-	if pa.attached && pa.lo == holeLo && pa.hi == holeHi {
-		return &Machine{CPU: cpuB{c}, Mem: mem, altB: c}
+	if pa.attached && pa.lo == holeLo && pa.hi == holeHi && !pa.split {
+		return &Machine{CPU: cpuB{c}, Mem: mem, altB: c, altPool: pa}
 	}
+	pa.split = false
 	pa.attached, pa.lo, pa.hi = true, holeLo, holeHi
 	rd := func(a uint32) uint8 { return px.Read(a) }
 	wr := func(a uint32, v uint8) { px.Write(a, v) }
@@ -259,7 +262,7 @@ func NewAltMachine(env *sim.Env, idx int, mem *SimMem, holeLo, holeHi uint32) *M
 		c.Bus.AttachReader(0, 0xFFFFFF, rd)
 		c.Bus.AttachWriter(0, 0xFFFFFF, wr)
 	}
-	return &Machine{CPU: cpuB{c}, Mem: mem, altB: c}
+	return &Machine{CPU: cpuB{c}, Mem: mem, altB: c, altPool: pa}
 }
 
 // ---------------------------------------------------------------------------------------
@@ -313,4 +316,21 @@ func NewSysMachine(env *sim.Env, idx int, hole *SimMem) (*SysMachine, error) {
 // wrap defects of 24-bit reads hand a device an address outside its backing slice).
 func isIndexPanic(msg string) bool {
 	return strings.Contains(msg, "index out of range") || strings.Contains(msg, "slice bounds out of range")
+}
+
+// SplitAlt re-attaches the 4 KiB starting at lo (16-byte aligned) of a cpualt machine to a
+// second device behind closures of its own, so that instructions can straddle the edge
+// between two differently served segments. The machine must be re-created afterwards
+// (NewAltMachine with a different hole configuration resets the attachment).
+func SplitAlt(mc *Machine, second *SimMem, lo uint32) {
+	c := mc.altB
+	if mc.altPool != nil {
+		mc.altPool.split = true
+	}
+	hi := lo + 0xFFF
+	if hi > 0xFFFFFF {
+		hi = 0xFFFFFF
+	}
+	c.Bus.AttachReader(lo, hi, func(a uint32) uint8 { return second.Read(a) })
+	c.Bus.AttachWriter(lo, hi, func(a uint32, v uint8) { second.Write(a, v) })
 }
